@@ -14,6 +14,7 @@ from __future__ import annotations
 
 import ast
 import copy
+from dataclasses import dataclass
 from typing import Dict
 from typing import List
 from typing import Optional
@@ -21,12 +22,15 @@ from typing import Set
 from typing import Tuple
 
 from sa import twins
+from sa.consteval import Instance
 from sa.flow import parent_map
 from sa.kinds import path_of
 from sa.loader import AnalysisError
 from sa.loader import ClassInfo
 from sa.loader import FuncInfo
 from sa.loader import short
+from sa.peval import UNKNOWN
+from sa.peval import Explorer
 from sa.report import RuleResult
 
 from . import Ctx
@@ -39,79 +43,126 @@ from .common import kw
 MUTATORS = {"append", "extend", "insert", "pop", "remove", "clear", "update", "setdefault", "add", "sort", "reverse"}
 
 
+@dataclass(frozen=True)
+class Member:
+    """What `_op_pointer` / `_op_value` returns during the abstract execution of the loader."""
+
+    kind: str  # "pointer" | "value"
+    key: object  # the member of the operation object that is read
+    label: object  # the operation name used in error messages
+
+
+@dataclass(frozen=True)
+class BoundBuilder:
+    """`getattr(self, "<name>")` / `self.<name>` held in a local."""
+
+    name: str
+
+
 class Branch:
-    """The statements `_build` executes for one operation name."""
+    """The builder call `_build` makes for one operation name."""
 
-    def __init__(self, body: List[ast.stmt]) -> None:
-        self.body = body
-        self.lineno = body[0].lineno if body else 0
+    def __init__(self, builder: str, kwargs: Dict[str, object], node: ast.AST, positional: int) -> None:
+        self.builder = builder
+        self.kwargs = kwargs
+        self.node = node
+        self.positional = positional
+        self.lineno = getattr(node, "lineno", 0)
+
+    @property
+    def members(self) -> List[Member]:
+        return [v for v in self.kwargs.values() if isinstance(v, Member)]
 
 
-def _op_test(test: ast.expr, lit: str) -> Optional[bool]:
-    """Truth of a dispatch test when `op == lit`, None when it depends on something else."""
-    if isinstance(test, ast.UnaryOp) and isinstance(test.op, ast.Not):
-        v = _op_test(test.operand, lit)
-        return None if v is None else not v
-    if isinstance(test, ast.BoolOp):
-        vals = [_op_test(v, lit) for v in test.values]
-        if isinstance(test.op, ast.And):
-            if any(v is False for v in vals):
-                return False
-            return True if all(v is True for v in vals) else None
-        if any(v is True for v in vals):
-            return True
-        return False if all(v is False for v in vals) else None
-    if isinstance(test, ast.Compare) and len(test.ops) == 1 and isinstance(test.left, ast.Name) and test.left.id == "op":
-        c, o = test.comparators[0], test.ops[0]
-        if isinstance(o, (ast.Eq, ast.NotEq)) and isinstance(c, ast.Constant):
-            return (c.value == lit) == isinstance(o, ast.Eq)
-        if isinstance(o, (ast.In, ast.NotIn)) and isinstance(c, (ast.Tuple, ast.List, ast.Set)) and all(
-            isinstance(x, ast.Constant) for x in c.elts):
-            return (lit in [x.value for x in c.elts]) == isinstance(o, ast.In)  # type: ignore[attr-defined]
-    return None
+def _candidate_names(ctx: Ctx, fn: FuncInfo) -> Set[str]:
+    """Every short identifier-like string the loader or the class-level tables of JSONPatch mention."""
+    lits: Set[str] = set()
+    cls = ctx.repo.require_class("JSONPatch")
+    nodes: List[ast.AST] = [fn.node]
+    nodes.extend(s for s in cls.node.body if isinstance(s, (ast.Assign, ast.AnnAssign)))
+    for root in nodes:
+        for n in ast.walk(root):
+            if isinstance(n, ast.Constant) and isinstance(n.value, str) and n.value.isidentifier() and len(n.value) <= 16:  # noqa: PLR2004
+                lits.add(n.value)
+    return lits
 
 
 def build_branches(ctx: Ctx) -> Dict[str, Branch]:
-    """Abstract execution of the dispatch in `_build`, once per operation-name literal it mentions."""
+    """Abstract execution of the loader's loop body, once per candidate operation name.
+
+    The body is partially evaluated (sa/peval.py) with the `op` member of the operation object bound to
+    the name; `self._op_pointer(...)` / `self._op_value(...)` evaluate to `Member` records, and the call of
+    a public method of JSONPatch - written as `self.add(...)`, through `getattr(self, name)`, through a
+    local bound to either, with keyword arguments or a `**` dictionary the path built - is recorded.  A name
+    for which every path raises is not an operation.
+    """
     fn = ctx.repo.require_func("JSONPatch._build")
-    lits: Set[str] = set()
-    for node in ast.walk(fn.node):
-        if isinstance(node, ast.Compare) and isinstance(node.left, ast.Name) and node.left.id == "op":
-            for c in ast.walk(node.comparators[0]):
-                if isinstance(c, ast.Constant) and isinstance(c.value, str):
-                    lits.add(c.value)
+    patch_cls = ctx.repo.require_class("JSONPatch")
     loops = [n for n in fn.node.body if isinstance(n, ast.For)]
     if len(loops) != 1:
         raise AnalysisError("JSONPatch._build is no longer one loop over the operations")
-
-    def walk(body: List[ast.stmt], lit: str, acc: List[ast.stmt]) -> bool:
-        for s in body:
-            if isinstance(s, ast.If):
-                v = _op_test(s.test, lit)
-                if v is None:
-                    acc.append(s)
-                    continue
-                if not walk(s.body if v else s.orelse, lit, acc):
-                    return False
-            elif isinstance(s, (ast.Raise, ast.Continue, ast.Return, ast.Break)):
-                if isinstance(s, ast.Raise):
-                    acc.append(s)
-                return False
-            elif isinstance(s, ast.Try) and any(isinstance(n, ast.Subscript) and isinstance(n.slice, ast.Constant)
-                                                 and n.slice.value == "op" for n in ast.walk(s)):
-                continue  # the statement that reads the `op` member itself
-            else:
-                acc.append(s)
-        return True
-
+    loop = loops[0]
+    builders = {n for n in patch_cls.methods if not n.startswith("_")}
+    folder = ctx.folder
     out: Dict[str, Branch] = {}
-    for lit in sorted(lits):
-        acc: List[ast.stmt] = []
-        walk(loops[0].body, lit, acc)
-        if any(isinstance(x, ast.Raise) for x in acc):
-            continue  # this literal is refused, it is not an operation
-        out[lit] = Branch(acc)
+    for lit in sorted(_candidate_names(ctx, fn)):
+        def value_oracle(e: ast.expr, env: Dict[str, object], lit: str = lit) -> object:
+            if isinstance(e, ast.Subscript) and isinstance(e.slice, ast.Constant) and e.slice.value == "op":
+                return lit
+            if isinstance(e, ast.Attribute) and path_of(e.value) == "self" and e.attr in builders and isinstance(e.ctx, ast.Load):
+                return BoundBuilder(e.attr)
+            return None
+
+        ex: Explorer
+
+        def on_call(e: ast.Call, args: List[object], env: Dict[str, object]) -> object:
+            name = callee_name(e)
+            if name in ("_op_pointer", "_op_value") and isinstance(e.func, ast.Attribute) and path_of(e.func.value) == "self":
+                vals = list(args) + [None] * 4
+                kws = {k.arg: ex.value(k.value, env) for k in e.keywords if k.arg}
+                return Member("pointer" if name == "_op_pointer" else "value", kws.get("key", vals[1]), kws.get("op", vals[2]))
+            if name == "getattr" and isinstance(e.func, ast.Name) and len(e.args) == 2 and path_of(e.args[0]) == "self":  # noqa: PLR2004
+                if isinstance(args[1], str) and args[1] in builders:
+                    return BoundBuilder(args[1])
+                return None
+            f = ex.value(e.func, env)
+            if isinstance(f, BoundBuilder):
+                kwargs: Dict[str, object] = {}
+                for k in e.keywords:
+                    v = ex.value(k.value, env)
+                    if k.arg is None:
+                        if not isinstance(v, dict):
+                            raise AnalysisError(f"R15.1: `{short(e)}`: the `**` argument is not a dictionary the loader built")
+                        kwargs.update(v)
+                    else:
+                        kwargs[k.arg] = v
+                rec = (f.name, kwargs, e, len(e.args))
+                env["$calls"] = tuple(env.get("$calls", ())) + (rec,)  # type: ignore[arg-type]
+                return UNKNOWN
+            return None
+
+        ex = Explorer(folder, fn, on_call=on_call, value_oracle=value_oracle, enter_loops=True)
+        ends = ex.block(list(loop.body), {"self": Instance(patch_cls, {})})
+        paths = [e for e in ends if not e.get("$handlers")]
+        paths += [env for (kind, _n, _v), env in zip(ex.outcomes, ex.envs)
+                  if kind in ("continue", "return") and not env.get("$handlers")]
+        if not paths:
+            continue  # every path raises: this name is refused, it is not an operation
+        recs = [env.get("$calls", ()) for env in paths]
+        if any(len(r) != 1 for r in recs):  # type: ignore[arg-type]
+            if all(len(r) == 0 for r in recs):  # type: ignore[arg-type]
+                raise AnalysisError(f"R15.1: `op == {lit!r}` is accepted by the loader without calling a builder method")
+            raise AnalysisError(f"R15.1: branch `{lit}` does not call exactly one builder method on every path")
+        first = recs[0][0]  # type: ignore[index]
+        for r in recs[1:]:
+            if (r[0][0], r[0][1]) != (first[0], first[1]):  # type: ignore[index]
+                raise AnalysisError(f"R15.1: branch `{lit}` builds different operations on different paths")
+        out[lit] = Branch(first[0], dict(first[1]), first[2], first[3])
     return out
+
+
+#: builder parameter -> (kind of member, member of the operation object) as RFC 6902 names them
+PARAMETER_MEMBER = {"path": ("pointer", "path"), "from_": ("pointer", "from"), "value": ("value", "value")}
 
 
 def r15_1(ctx: Ctx) -> RuleResult:
@@ -121,34 +172,29 @@ def r15_1(ctx: Ctx) -> RuleResult:
     names = {op_name(ctx, c) for c in op_classes(ctx)}
     br = build_branches(ctx)
     if not br:
-        raise AnalysisError("R15.1: no `op == <literal>` branches found in JSONPatch._build")
-    for lit, node in sorted(br.items()):
+        raise AnalysisError("R15.1: no operation name is dispatched to a builder method in JSONPatch._build")
+    for lit, b in sorted(br.items()):
         bad = []
-        builder_calls = [
-            c for s in node.body for c in calls(s)
-            if isinstance(c.func, ast.Attribute) and path_of(c.func.value) == "self" and c.func.attr in patch_cls.methods
-            and not c.func.attr.startswith("_")
-        ]
-        if len(builder_calls) != 1:
-            raise AnalysisError(f"R15.1: branch `{lit}` does not call exactly one builder method")
-        b = builder_calls[0]
-        if b.func.attr != lit:  # type: ignore[union-attr]
-            bad.append(f"calls self.{b.func.attr}()")  # type: ignore[union-attr]
-        labels = []
-        for c in calls(b):
-            if callee_name(c) in ("_op_pointer", "_op_value") and len(c.args) >= 3:
-                lab = c.args[2]
-                if isinstance(lab, ast.Constant):
-                    labels.append(lab.value)
+        if b.builder != lit:
+            bad.append(f"calls self.{b.builder}()")
+        labels = [m.label for m in b.members]
         wrong = [x for x in labels if x != lit]
         if wrong:
-            bad.append(f"labels its members {sorted(set(wrong))}")
+            bad.append(f"labels its members {sorted(set(map(str, wrong)))}")
+        if b.positional:
+            raise AnalysisError(f"R15.1: branch `{lit}` passes positional arguments to the builder")
+        for param, v in sorted(b.kwargs.items()):
+            want = PARAMETER_MEMBER.get(param)
+            if want is None or not isinstance(v, Member):
+                raise AnalysisError(f"R15.1: branch `{lit}`: argument `{param}` is not a member read by _op_pointer/_op_value")
+            if (v.kind, v.key) != want:
+                bad.append(f"passes the {v.kind} member `{v.key}` as `{param}`")
         if bad:
-            rr.bad(fn, node, f"the loader branch for `{lit}` " + " and ".join(bad) +
+            rr.bad(fn, b.node, f"the loader branch for `{lit}` " + " and ".join(bad) +
                    f": a patch document containing `{lit}` builds a different operation or reports the wrong one",
                    construct=f"op == {lit!r}: {'; '.join(bad)}")
         else:
-            rr.ok(fn.loc(node), f"`{lit}` -> self.{lit}(...) labelled {sorted(set(labels))}")
+            rr.ok(fn.loc(b.node), f"`{lit}` -> self.{lit}({', '.join(sorted(b.kwargs))}) labelled {sorted(set(map(str, labels)))}")
     if set(br) != names:
         rr.bad(fn, fn.node, f"operation names handled by the loader {sorted(br)} differ from the operation "
                f"classes {sorted(names)}", construct="loader names vs Op names")
@@ -247,11 +293,7 @@ def r15_3(ctx: Ctx) -> RuleResult:
                 if isinstance(k, ast.Constant) and isinstance(k.value, str):
                     written.add(k.value)
         written.discard("op")
-        read: Set[str] = set()
-        for stmt in br[name].body:
-            for c in calls(stmt):
-                if callee_name(c) in ("_op_pointer", "_op_value") and len(c.args) >= 2 and isinstance(c.args[1], ast.Constant):
-                    read.add(c.args[1].value)
+        read: Set[str] = {str(m.key) for m in br[name].members}
         if written == read:
             rr.ok(ad.loc(), f"{name}: members {sorted(written)}")
         else:
